@@ -239,6 +239,22 @@ pub fn gen_sched(rng: &mut Rng, calls: usize, kind: usize) -> Vec<SinkResp> {
             }
             s
         }
+        // a sink that stalls: whole buffers up to a call, a few bytes, then a RUN of 1..14 zero-length acceptances
+        // (write_all must fail with WriteZero at the first one; a hand-written retry loop that gives up silently
+        // after n stalls shows only with n in a row), then it accepts again
+        7 => {
+            let at = rng.below(calls + 1);
+            let mut s: Vec<SinkResp> = (0..at).map(|_| SinkResp::Accept(usize::MAX >> 1)).collect();
+            for _ in 0..rng.below(3) {
+                s.push(SinkResp::Accept(rng.range(1, 47)));
+            }
+            for _ in 0..rng.range(1, 14) {
+                s.push(SinkResp::Accept(0));
+            }
+            let k = rng.range(1, 200);
+            s.extend((0..calls * 60).map(|_| SinkResp::Accept(k)));
+            s
+        }
         // mixture
         _ => (0..calls * 3)
             .map(|_| match rng.below(12) {
@@ -303,7 +319,7 @@ pub fn c13(ctx: &Ctx) -> Report {
                     rep.count_n("exhaustive_fault_positions", 2);
                 }
             }
-            for kind in 0..8 {
+            for kind in 0..9 {
                 let s = gen_sched(rng, calls, kind);
                 rep.count(&format!("schedule_kind_{}", kind));
                 c13_case(d, rep, &cfg, &es, &perfect, &s);
